@@ -620,7 +620,8 @@ impl<Backing : AsRef<[u32]> + AsMut<[u32]>> DrawTarget<Backing> {
         let rect = self.clip_bounds();
         self.layer_stack.push(Layer {
             rect,
-            buf: vec![0; (rect.size().width * rect.size().height) as usize],
+            // the clip bounds of an empty clip can be an inverted rect
+            buf: vec![0; (rect.size().width.max(0) * rect.size().height.max(0)) as usize],
             opacity,
             blend
         });
